@@ -80,6 +80,21 @@ Section Statements.
     /\ wc_tree (snd r1) = wc_tree (snd r2) /\ wc_sparse (snd r1) = wc_sparse (snd r2).
   Proof. exact (set_sparse_path_independent rn). Qed.
 
+  (** Pattern changes interleaved with checkouts in one working copy, ANY sequence (well-formed
+      conflict-free trees, untracked entries off all their paths): every call succeeds without
+      skipping, the recorded tree is the one checked out last - set_sparse_patterns never changes
+      it -, the recorded patterns are the ones set last - check_out never changes them -, and the
+      disk is exactly that tree inside those patterns plus the untracked entries. *)
+  Theorem C27_interleaved : forall ops w u f,
+    (forall t, In t (wc_tree w :: trees_of ops) -> good_tree rn t) ->
+    uokp rn u (flat_map keys (wc_tree w :: trees_of ops)) ->
+    models (restrict (matches (wc_sparse w)) (wc_tree w)) u f ->
+    let '(rs, f', w') := run_ops rn f w ops in
+    Forall (fun r => exists st, r = ROk st /\ n_skipped st = 0%N) rs /\ length rs = length ops
+    /\ wc_tree w' = final_tree ops (wc_tree w) /\ wc_sparse w' = final_sparse ops (wc_sparse w)
+    /\ models (restrict (matches (wc_sparse w')) (wc_tree w')) u f'.
+  Proof. exact (run_ops_clean rn). Qed.
+
   (** The hypotheses are decided on every clean recorded step. *)
   Theorem C27_hypotheses_decided : forall c, C27Chk.pre_ok rn c = true ->
     forall s, In s (c_steps c) -> ss_clean s = true ->
@@ -140,6 +155,19 @@ Example C27_sequence_nonvacuous :
   /\ lookup f' (pth "d/u") = Some (EFile "mine" false) /\ lookup f' (pth "a/x") = None
   /\ lookup f' (pth "d/z") = lookup f2 (pth "d/z").
 Proof. vm_compute. repeat split. Qed.
+Definition ex_t2 : tree := [(pth "a/x", TFile "9" true); (pth "c", TSym "b"); (pth "d/z/k", TFile "4" false)].
+Example C27_interleaved_nonvacuous :
+  let w0 := mkWc [] [] [[]] in
+  let '(rs, f', w') := run_ops reserved_names ex_u w0
+        [OpCheckout ex_t; OpSparse [pth "a"; pth "d"]; OpCheckout ex_t2; OpSparse [pth "c"; pth "d"];
+         OpCheckout ex_t] in
+  tree_ok_b reserved_names ex_t2 = true /\ compat_b ex_u (keys ex_t ++ keys ex_t2) = true
+  /\ length rs = 5%nat /\ forallb (fun r => match r with ROk st => N.eqb (n_skipped st) 0 | _ => false end) rs = true
+  /\ wc_tree w' = ex_t /\ wc_sparse w' = [pth "c"; pth "d"]
+  /\ models_b (restrict (matches [pth "c"; pth "d"]) ex_t) ex_u f' = true
+  /\ lookup f' (pth "d/z") = Some (EFile "3" false) /\ lookup f' (pth "a/x") = None
+  /\ lookup f' (pth "d/u") = Some (EFile "mine" false).
+Proof. vm_compute. repeat split. Qed.
 (** Without the cleanliness hypothesis the statement is false of the faithful model (and
     of the code, see the known-finding class [C27Chk.known_class]): the removal pass can
     skip a path, and then assert_eq!(removed_stats.skipped_files, 0) fails after the disk
@@ -156,3 +184,4 @@ Print Assumptions C27_snapshot_respects.
 Print Assumptions C27_checker_spec.
 Print Assumptions C27_sequence.
 Print Assumptions C27_path_independent.
+Print Assumptions C27_interleaved.
